@@ -429,6 +429,7 @@ def _imports(ctx):
     from props.common import import_rules
 
     import_rules(ctx, "C05", {"C05.b", "C05.c", "C05.d", "C05.e"}, "C10.g", "imported from C05 (AtomicBucket<f64> is the storage of an unsampled histogram, drained by each flush): a detached block is read only after its in-flight writers have published, blocks are linked before they are published, every slot is claimed once — otherwise a value recorded while a flush runs is sent in no flush or in two", floor=6)
+    import_rules(ctx, "C06", {"C06.b", "C06.c", "C06.e"}, "C10.h", "imported from C06 (the registry the recorder registers into and every flush lists): one hash/shard/key per lookup, check-and-insert in one critical section with entry-API-only insertion — otherwise a racing first registration replaces the counter another thread already holds, and its increments are never flushed", floor=12)
     import_rules(ctx, "C09", {"C09.a", "C09.b", "C09.c", "C09.e"}, "C10.e", "imported from C09 (what the agent socket receives is these messages, correctly framed): placeholder / length-prefix invariant, complete shadow length in the histogram splitter, limit test and header, message grammar with the type token of the metric written — otherwise a flushed value is lost in a torn frame or the forwarder thread panics", floor=15)
 
 
